@@ -554,6 +554,111 @@ fn validity(app: &TuiApp) -> Vec<String> {
 
 struct Ctx {
     resolver: DnsResolver,
+    /// a hand-made MaxMind database: marker addresses whose first octet is odd (odd ttl) lie in the
+    /// city `Zq<ttl>burg`, every other address has no record
+    geoip_db: Option<std::path::PathBuf>,
+}
+
+// --- a minimal MaxMind DB writer (GeoIP2-City, IPv4, 24-bit records, a complete tree over the first octet)
+fn mm_str(out: &mut Vec<u8>, s: &str) {
+    out.push(0x40 | s.len() as u8);
+    out.extend_from_slice(s.as_bytes());
+}
+fn mm_map(out: &mut Vec<u8>, entries: usize) {
+    out.push(0xe0 | entries as u8);
+}
+fn mm_u16(out: &mut Vec<u8>, v: u16) {
+    out.push(0xa0 | 2);
+    out.extend_from_slice(&v.to_be_bytes());
+}
+fn mm_u32(out: &mut Vec<u8>, v: u32) {
+    out.push(0xc0 | 4);
+    out.extend_from_slice(&v.to_be_bytes());
+}
+fn mm_u64(out: &mut Vec<u8>, v: u64) {
+    out.push(8);
+    out.push(9 - 7);
+    out.extend_from_slice(&v.to_be_bytes());
+}
+fn mm_f64(out: &mut Vec<u8>, v: f64) {
+    out.push(0x60 | 8);
+    out.extend_from_slice(&v.to_be_bytes());
+}
+fn mm_array(out: &mut Vec<u8>, entries: usize) {
+    out.push(entries as u8);
+    out.push(11 - 7);
+}
+
+/// the city of a marker hop with an odd ttl
+fn geo_marker(ttl: u8) -> String {
+    format!("Zq{:02}burg", ttl % 100)
+}
+
+fn write_mmdb(path: &std::path::Path) -> std::io::Result<()> {
+    let node_count: u32 = 255;
+    // data section: one city record per odd first octet 101..=199
+    let mut data: Vec<u8> = vec![];
+    let mut offset_of = [None::<u32>; 256];
+    for octet in (101u32..200).step_by(2) {
+        offset_of[octet as usize] = Some(data.len() as u32);
+        mm_map(&mut data, 2);
+        mm_str(&mut data, "city");
+        mm_map(&mut data, 1);
+        mm_str(&mut data, "names");
+        mm_map(&mut data, 1);
+        mm_str(&mut data, "en");
+        mm_str(&mut data, &geo_marker((octet - 100) as u8));
+        mm_str(&mut data, "location");
+        mm_map(&mut data, 3);
+        mm_str(&mut data, "accuracy_radius");
+        mm_u16(&mut data, 50);
+        mm_str(&mut data, "latitude");
+        mm_f64(&mut data, 10.0 + f64::from(octet - 100) / 2.0);
+        mm_str(&mut data, "longitude");
+        mm_f64(&mut data, -60.0 + f64::from(octet - 100));
+    }
+    let mut db: Vec<u8> = vec![];
+    let rec = |v: u32| [(v >> 16) as u8, (v >> 8) as u8, v as u8];
+    for i in 0..node_count {
+        for child in [2 * i + 1, 2 * i + 2] {
+            let v = if child < node_count {
+                child
+            } else {
+                // a leaf: the first octet of the address
+                match offset_of[(child - node_count) as usize] {
+                    Some(off) => node_count + 16 + off,
+                    None => node_count,
+                }
+            };
+            db.extend_from_slice(&rec(v));
+        }
+    }
+    db.extend_from_slice(&[0; 16]);
+    db.extend_from_slice(&data);
+    db.extend_from_slice(b"\xab\xcd\xefMaxMind.com");
+    mm_map(&mut db, 9);
+    mm_str(&mut db, "binary_format_major_version");
+    mm_u16(&mut db, 2);
+    mm_str(&mut db, "binary_format_minor_version");
+    mm_u16(&mut db, 0);
+    mm_str(&mut db, "build_epoch");
+    mm_u64(&mut db, 1_700_000_000);
+    mm_str(&mut db, "database_type");
+    mm_str(&mut db, "GeoIP2-City");
+    mm_str(&mut db, "description");
+    mm_map(&mut db, 1);
+    mm_str(&mut db, "en");
+    mm_str(&mut db, "tvh marker database");
+    mm_str(&mut db, "ip_version");
+    mm_u16(&mut db, 4);
+    mm_str(&mut db, "languages");
+    mm_array(&mut db, 1);
+    mm_str(&mut db, "en");
+    mm_str(&mut db, "node_count");
+    mm_u32(&mut db, node_count);
+    mm_str(&mut db, "record_size");
+    mm_u16(&mut db, 24);
+    std::fs::write(path, db)
 }
 
 struct Live {
@@ -595,6 +700,7 @@ fn new_live(ctx: &Ctx, setup: &Setup) -> Live {
         tui_geoip_mode: [GeoIpMode::Off, GeoIpMode::Short, GeoIpMode::Long, GeoIpMode::Location][usize::from(setup.geoip_mode % 4)],
         tui_icmp_extension_mode: [IcmpExtensionMode::Off, IcmpExtensionMode::Mpls, IcmpExtensionMode::Full, IcmpExtensionMode::All]
             [usize::from(setup.ext_mode % 4)],
+        geoip_mmdb_file: if setup.geoip_mode >= 4 { ctx.geoip_db.as_ref().map(|p| p.to_string_lossy().to_string()) } else { None },
         ..TrippyConfig::default()
     };
     let tui_config = verif_make_tui_config(&cfg, "en".to_string());
@@ -604,7 +710,12 @@ fn new_live(ctx: &Ctx, setup: &Setup) -> Live {
         .enumerate()
         .map(|(i, ts)| TraceInfo::new(build_tracer(ts, i), target_addr(ts.v6, i).to_string()))
         .collect();
-    let app = TuiApp::new(tui_config, ctx.resolver.clone(), GeoIpLookup::empty(), traces);
+    // `geoip_mode >= 4`: the same display mode with the marker database loaded
+    let geoip = match (&ctx.geoip_db, setup.geoip_mode >= 4) {
+        (Some(p), true) => GeoIpLookup::from_file(p, "en".to_string()).unwrap_or_else(|_| GeoIpLookup::empty()),
+        _ => GeoIpLookup::empty(),
+    };
+    let app = TuiApp::new(tui_config, ctx.resolver.clone(), geoip, traces);
     Live { app, setup: setup.clone(), rounds: vec![0; setup.traces.len()], seq: 33000, marks: BTreeSet::new() }
 }
 
@@ -771,6 +882,12 @@ impl Live {
             let keys: BTreeSet<(u8, u8)> = self.marks.iter().filter(|&&(t, _)| t <= n).map(|&(t, j)| (t, j / 10 * 10)).collect();
             for (t, j) in keys {
                 v.extend(short_markers(t, j));
+            }
+            // the city of a hidden hop (only marker hops with an odd ttl have one)
+            if self.setup.geoip_mode >= 4 {
+                for &(t, _) in self.marks.iter().filter(|&&(t, _)| t <= n && t % 2 == 1 && t < 100) {
+                    v.push(geo_marker(t));
+                }
             }
             v.sort();
             v.dedup();
@@ -952,7 +1069,7 @@ fn gen_setup(rng: &mut Rng) -> Setup {
         max_addrs: if rng.chance(1, 4) { Some(rng.range(1, 4) as u8) } else { None },
         columns: (*rng.pick(&all_cols)).to_string(),
         addr_mode: rng.below(3) as u8,
-        geoip_mode: rng.below(4) as u8,
+        geoip_mode: rng.below(8) as u8,
         ext_mode: rng.below(4) as u8,
     }
 }
@@ -1051,6 +1168,8 @@ fn run_case(run: &mut Run, ctx: &Ctx, tally: &mut Tally, setup: &Setup, ops: &[O
             // frame: also scan the screen
             match live.frame_rows(*w, *h) {
                 Ok(rows) => {
+                    if rows.iter().any(|r| r.contains("Zq") && r.contains("burg")) { run.count("frames:geoip-city-shown"); }
+                    if rows.iter().any(|r| r.contains("No GeoIp data")) { run.count("frames:geoip-no-data-shown"); }
                     let leaks = find_leaks(&rows, &live.hidden_markers());
                     if !leaks.is_empty() {
                         run.fail(
@@ -1177,7 +1296,22 @@ fn f() -> Op {
 
 fn directed() -> Vec<(&'static str, Setup, Vec<Op>)> {
     use Op::Key as K;
+    let geo = |privacy: Option<u8>, mode: u8| Setup { privacy, geoip_mode: 4 + mode, ..simple_setup(1, 64) };
+    let walk = |n: usize| -> Vec<Op> {
+        // the map and every other view, hop by hop (the info panel shows the selected hop, else the target)
+        let mut v = vec![path(0, &[c(0), c(1), c(0), c(2), c(0)]), path(0, &[c(0), c(1), c(0), c(2), c(0)]), Op::Frame(120, 40), K("toggle_map"), Op::Frame(120, 40)];
+        for _ in 0..n {
+            v.extend([K("next_hop"), Op::Frame(120, 40)]);
+        }
+        v.extend([K("toggle_map"), Op::Frame(120, 40), K("toggle_hop_details"), Op::Frame(120, 40), K("previous_hop"), Op::Frame(120, 40)]);
+        v
+    };
     vec![
+        // GeoIP database loaded: hops with an odd ttl have a city, the others "no data"; privacy hides ttl <= n
+        ("geoip-map-privacy-2", geo(Some(2), 1), walk(6)),
+        ("geoip-map-privacy-3-long", geo(Some(3), 2), walk(6)),
+        ("geoip-map-privacy-4-location", geo(Some(4), 3), walk(6)),
+        ("geoip-map-privacy-off", geo(None, 1), walk(6)),
         // F11(a): flows shown, trace data cleared
         ("flows-clear", simple_setup(1, 64), vec![path(0, &[c(0), c(0), c(0)]), f(), K("toggle_flows"), f(), K("clear_trace_data"), f()]),
         // F11(b): frozen, cleared, selected, unfrozen
@@ -1559,7 +1693,15 @@ pub fn run(rng: &mut Rng, thorough: bool, corpus: &[String]) -> Run {
             return run;
         }
     };
-    let ctx = Ctx { resolver };
+    let db_path = std::env::temp_dir().join(format!("tvh-{}.mmdb", std::process::id()));
+    let geoip_db = match write_mmdb(&db_path) {
+        Ok(()) if GeoIpLookup::from_file(&db_path, "en".to_string()).is_ok() => Some(db_path.clone()),
+        _ => {
+            run.count("geoip-db-unavailable");
+            None
+        }
+    };
+    let ctx = Ctx { resolver, geoip_db };
     let mut tally = Tally { sites: Default::default() };
 
     for l in corpus {
@@ -1579,5 +1721,6 @@ pub fn run(rng: &mut Rng, thorough: bool, corpus: &[String]) -> Run {
     privacy_walk(&mut run, &ctx, rng);
     privacy_sweep(&mut run, &ctx, rng, thorough);
     DNS_STUB.store(false, Ordering::SeqCst);
+    let _ = std::fs::remove_file(&db_path);
     run
 }
